@@ -103,7 +103,7 @@ def histories(ctx):
     rng = ctx.rng("c30-hist")
     codes = ["en", "de", "fr", "zh", "fil", "haw", "ast", "tzm", "kok", "es"]
     regs = ["", "US", "DE", "419", "PH", "001", "ZZ", "A1"]
-    for h in range(300 if ctx.quick else 5000):
+    for h in range(300 if ctx.quick else 60000):
         lang, reg = rng.choice(codes), rng.choice(regs)
         c = ARSCResTableConfig(io.BytesIO(config_bytes(word(lang, reg)))) if rng.random() < 0.5 else ARSCResTableConfig(None, locale=tag(lang, reg))
         hist = [("init", tag(lang, reg))]
